@@ -9,7 +9,11 @@ grid -INF -1 0 0.5 1 1.5 2 2.5 3 len len+1 INF NaN () as tokens).  The laws quot
 (every = not some not, subsequence = its filter expansion = a slice, reverse o reverse = id,
 count(insert-before) = count + count, remove out of range = id, sum = fold of + = closed form,
 avg * count = sum, min <= items <= max, head/tail partition, cardinality errors, index-of /
-distinct-values characterisations) are the TLC invariant `Laws`.
+distinct-values characterisations) are the TLC invariant `Laws`.  Group "focus" states the purity of the
+focus: MapFocus / ForFocus / PredFocus / QuantFocus put a consumer (exists empty head count some =) of an
+inner filter or map, which sets its own focus and may be abandoned early, next to a reader of the OUTER
+focus (. position() last()); the definitional value ignores the consumer, the implementation has to
+restore the focus after an abandoned generator and must evaluate every binding on its own context.
 
 Binding A: the dumped TLC graph is the test plan.  Every edge S --Act(args)--> S' is rendered as XPath
 text and evaluated with select(None, expr, item=1, parser=XPath2Parser|XPath30Parser|XPath31Parser).
